@@ -33,7 +33,14 @@ type gate struct {
 }
 
 func NewCtl() *Ctl {
-	return &Ctl{reg: make(chan *gate, 1<<16), parked: map[string]*gate{}}
+	// In race builds the registration channel must not wrap around within a
+	// run: the detector models one sync object per buffer slot, and a reused
+	// slot would hand the controller's clock to the next parker.
+	n := 256
+	if raceBuild {
+		n = 1 << 16
+	}
+	return &Ctl{reg: make(chan *gate, n), parked: map[string]*gate{}}
 }
 
 // Park blocks the caller until the controller releases key. It returns false
